@@ -140,14 +140,18 @@ def shapeFault (s : Obj) : Call → Prop
   | .setitem (.sel sel) (.q a) => assignable a.shape sel = false
   | .insertDerivs ds _ => ∃ p ∈ ds, ∃ a, p.2 = .q a ∧ into a.shape s.shape = false
   | _ => False
+/-- incompatible units, or an operand with units for a class that disallows units (`_require_units_allowed`) -/
 def unitsFault (s : Obj) : Call → Prop
-  | .iadd (.q a) | .isub (.q a) => canMatch s.units a.units = false
+  | .iadd (.q a) | .isub (.q a) => canMatch s.units a.units = false ∨ unitsAllowed s a = false
+  | .imul (.q a) => a.rank = 0 ∧ unitsAllowed s a = false
+  | .ifloordiv (.q a) | .imod (.q a) => unitsAllowed s a = false
   | .setUnits (.unit d) _ => canMatch (some d) s.units = false
   | _ => False
 def numerFault (s : Obj) : Call → Prop
   | .iadd (.q a) | .isub (.q a) | .setitem (.sel _) (.q a) => (s.numer == a.numer) = false
   | .insertDeriv _ (.q a) _ => (a.numer == s.numer) = false
   | .insertDerivs ds _ => ∃ p ∈ ds, ∃ a, p.2 = .q a ∧ (a.numer == s.numer) = false
+  | .ilogic (.q a) => (a.item == s.item) = false          -- &= |= ^= combine items one by one
   | _ => False
 def denomFault (s : Obj) : Call → Prop
   | .iadd (.q a) | .isub (.q a) | .setitem (.sel _) (.q a) => (s.denom == a.denom) = false
@@ -211,14 +215,17 @@ theorem units_detected (s : Obj) (c : Call) (h : unitsFault s c) : Rejected (val
   unfold unitsFault at h
   split at h <;> simp only [validate] <;> first
     | exact absurd h id
-    | exact rejected_vAdd_q _ _ (rejected_vAddQ_of _ _ (Or.inl h))
+    | (rcases h with h | h
+       · exact rejected_vAdd_q _ _ (rejected_vAddQ_of _ _ (Or.inl h))
+       · exact rej_unitsAllowed_vAdd _ _ h)
+    | exact rej_unitsAllowed_vMul _ _ h.1 h.2 | exact rej_unitsAllowed_vFloorMod _ _ _ h
     | exact rej_units_vSetUnits _ _ _ h
 theorem numer_detected (s : Obj) (c : Call) (h : numerFault s c) : Rejected (validate s c) := by
   unfold numerFault at h
   split at h <;> simp only [validate] <;> first
     | exact absurd h id
     | exact rejected_vAdd_q _ _ (rejected_vAddQ_of _ _ (Or.inr (Or.inl h)))
-    | exact rej_numer_vInsertDeriv _ _ _ _ h | exact rej_numer_vSetItem _ _ _ h
+    | exact rej_numer_vInsertDeriv _ _ _ _ h | exact rej_numer_vSetItem _ _ _ h | exact rej_item_vLogic _ _ h
     | (obtain ⟨p, hp, a, ha, hs⟩ := h
        exact rej_vInsertDerivs_of _ _ _ p hp (by rw [ha]; exact compatibleDeriv_numer _ _ hs))
 theorem denom_detected (s : Obj) (c : Call) (h : denomFault s c) : Rejected (validate s c) := by
@@ -283,8 +290,7 @@ example :
     let a : Obj := ⟨.vector, .float, [3], [3], [], some 2, false, 0, [⟨"t", [3], false, 0⟩]⟩
     HasFault s .deriv (.iadd (.q a)) ∧ HasFault s .units (.iadd (.q a)) := by
   refine ⟨⟨⟨"t", [2], false, 0⟩, by simp, ⟨"t", [3], false, 0⟩, by rfl, by rfl⟩, ?_⟩
-  show canMatch (some 1) (some 2) = false
-  rfl
+  exact Or.inl rfl
 
 /-! ### 6. T2: the same ordering, re-proved on the event trees regenerated from the source on every run -/
 
@@ -313,13 +319,15 @@ theorem explicit_raises_allowed (name : String) (p : Prog) (t : List Ev) (st : B
   simpa using this
 
 /-- the polymath helpers that may be called after the first write of a mutator: cache bookkeeping
-    (`_new_values_`), mask / units algebra on validated operands (`or_`, `mul_units`, `div_units`, `copy` of the
-    mask), iteration over the derivative dictionary (`items`), construction of a zero derivative (`zeros`) and the
+    (`_new_values_`), the mask write of the in-place operators (`_merge_mask_`: `Qube.or_` of the two masks, then
+    `np.broadcast_to` into the object's shape, which cannot fail because the operand's shape was validated to broadcast
+    into it — the model's `Prim.setMask`, precondition `true`), mask / units algebra on validated operands (`or_`,
+    `mul_units`, `div_units`, `copy` of the mask), iteration over the derivative dictionary (`items`), construction of a zero derivative (`zeros`) and the
     commit primitives whose preconditions the model carries (`insert_deriv`, `insert_derivs`, `delete_derivs`).
     NumPy and builtin calls, and methods that ndarray / dict also have when called on a local variable, are not
     events (kernel contract). -/
 def commitHelpers : List String :=
-  ["_new_values_", "or_", "mul_units", "div_units", "copy", "items", "zeros",
+  ["_new_values_", "_merge_mask_", "or_", "mul_units", "div_units", "copy", "items", "zeros",
    "insert_deriv", "insert_derivs", "delete_derivs"]
 
 open PMV.Events PMV.Gen.Events in
